@@ -518,6 +518,55 @@ def run(ctx):
 
     rwlock_guard_rules(ctx, 'C18.4-table-guards-not-across-awaits')
 
+    # two containers of one structure that are filled together are two views of one relation: whoever takes an entry out of one has to look after the other
+    ctx.rule('C18.2-paired-indexes', 'in the registry and process modules, when some operation adds to two containers of the same structure (a name table and its reverse index), every operation that removes from one of them '
+             'also updates the other: an entry left behind in one index is applied later to a name that has since changed hands', floor=0)
+    ADD = ('insert', 'push', 'entry', 'extend', 'push_back', 'or_default', 'or_insert', 'or_insert_with')
+    DEL = ('remove', 'retain', 'clear', 'drain', 'pop', 'swap_remove', 'remove_entry', 'take', 'truncate')
+    touched = {}       # body -> {(adt, field): set(ops)}
+    for q in sorted(ctx.F.bodies):
+        if not (q.startswith('edp_node::registry::') or q.startswith('edp_node::process::')):
+            continue
+        XB = P.B(q)
+        acc = {}
+        for bb, t in XB.calls():
+            nm = callee_of(t)[0] or ''
+            last = nm.rsplit('::', 1)[-1]
+            if last not in ADD + DEL + ('get_mut',) or not t['args'] or t['args'][0].get('k') not in ('cp', 'mv'):
+                continue
+            if not any(x in nm for x in ('HashMap', 'HashSet', 'BTreeMap', 'BTreeSet', 'Vec', 'VecDeque', 'hash_map', 'btree_map')):
+                continue
+            for tg in XB.ref_targets({'l': t['args'][0]['pl']['l'], 'p': list(t['args'][0]['pl'].get('p') or [])}, (bb, None)):
+                if tg is None:
+                    continue
+                flds = [e for e in (tg.get('p') or []) if isinstance(e, dict) and 'adt' in e and 'n' in e and 'f' in e]
+                if flds:
+                    acc.setdefault((flds[-1]['adt'], flds[-1]['n']), set()).add(last)
+        if acc:
+            touched[q] = acc
+    pairs = set()
+    for q, acc in touched.items():
+        adds = sorted(k for k, ops in acc.items() if ops & set(ADD))
+        for i_, a in enumerate(adds):
+            for b in adds[i_ + 1:]:
+                if a[0] == b[0]:
+                    pairs.add((a, b))
+    n_pi = 0
+    for (a, b) in sorted(pairs):
+        for q, acc in sorted(touched.items()):
+            da, db = acc.get(a, set()) & set(DEL), acc.get(b, set()) & set(DEL)
+            inst = '%s:%s/%s' % (q.split('::{')[0].rsplit('::', 1)[1], a[1], b[1])
+            if bool(da) != bool(db) and not (acc.get(b if da else a)):
+                n_pi += 1
+                ctx.bad('C18.2-paired-indexes', inst, '%s removes from `%s` and never touches `%s`, although the two are filled together elsewhere: the stale `%s` entry is acted on later (e.g. when the former owner terminates) '
+                        'and hits whoever holds the name by then' % (q.split('::{')[0].rsplit('::', 1)[1], (a if da else b)[1], (b if da else a)[1], (b if da else a)[1]), ctx.where(P.B(q)),
+                        key='PAIR:%s:index-left-behind:%s' % (q.split('::{')[0], (b if da else a)[1]))
+            elif da or db:
+                n_pi += 1
+                ctx.ok('C18.2-paired-indexes', inst, 'both containers are updated', ctx.where(P.B(q)))
+    if not pairs:
+        ctx.ok('C18.2-paired-indexes', 'registry', 'no two containers of one structure are filled by the same operation (%d operations with container updates examined)' % len(touched))
+
 
 def _param_name(B, base, projs):
     """name of the async-fn parameter (captured upvar) or local an origin denotes"""
